@@ -1,5 +1,5 @@
 (* C15/Driver.v — entry points of the correspondence run (extracted to OCaml). *)
-From RM Require Import C15.Model C15.Schema C15.Widths C15.Utf8 C15.Pretty C15.Scalar C15.Regs C15.Consistent C15.Offsets C15.KeyOrder.
+From RM Require Import C15.Model C15.Schema C15.Widths C15.Utf8 C15.Pretty C15.Scalar C15.Regs C15.Consistent C15.Offsets C15.KeyOrder C15.Float.
 From RM Require C19.Model.
 Open Scope Z_scope.
 
@@ -36,6 +36,12 @@ Definition flip_confidence_bits (b : flip) : Z :=
   C19.Model.confidence_bits
     {| C19.Model.d_nc := bf_nc b; C19.Model.d_null := bf_null b; C19.Model.d_low := bf_low b;
        C19.Model.d_nearby := bf_nearby b; C19.Model.d_poison := bf_poison b |}.
+
+(* the TEXT print_json writes for that confidence (c15_confidence_text: binary32 widened to binary64, shortest decimal that reads
+   back, ryu's layout); compared byte for byte with the number in the real compact output *)
+Definition flip_confidence_text (b : flip) : list Z := render_f32 (flip_confidence_bits b).
+(* the judgement of c15_confidence_text on the REAL text against f32::to_bits of the real value *)
+Definition real_confidence_ok (bits : Z) (text : list Z) : bool := conf_text_ok bits text.
 
 (* the hypotheses of c15_schema_conformance / c15_address_widths / c15_report_valid, evaluated on a real process state *)
 Definition wf_ok (s : state) : bool := wf_state s && regs_named_ok (s_registers s) && state_scalar s.
